@@ -235,11 +235,10 @@ Section Idx.
 
   Lemma step_ok : forall w o, chains_ok K child w -> chains_ok K child (i_step K child w o).
   Proof.
-    intros w o Hok. destruct o as [j n|n act|]; cbn [i_step].
+    intros w o Hok. destruct o as [j n|n act| | |]; cbn [i_step]; try exact Hok.
     - unfold i_generate. destruct (i_generate_at K child j j n w) as [w'|] eqn:E; [|exact Hok].
       apply (generate_at_ok w 0 j n w' Hok E).
     - unfold i_scan. destruct n; [exact Hok | apply scan_from_ok].
-    - exact Hok.
   Qed.
 
   (* every chain of the wallet is the single-shot derivation of its own length,
@@ -274,6 +273,12 @@ Section Idx.
     - intros i key Hi Hnth. pose proof (keep_num_rest_inactive (map act scanned) i Hi) as Hn.
       rewrite nth_error_map, Hnth in Hn. cbn in Hn. destruct (act key); [congruence | reflexivity].
   Qed.
+
+  (* locking, working on the locked wallet and unlocking gives the addresses of
+     the same operations on the unlocked wallet *)
+  Theorem lock_unlock_same_idx : forall (ops1 ops2 ops3 : list (iop K)) (w : iwallet K),
+    i_run K child (ops1 ++ ILock :: ops2 ++ IUnlock :: ops3) w = i_run K child (ops1 ++ ops2 ++ ops3) w.
+  Proof. intros. unfold i_run. rewrite !fold_left_app. cbn [fold_left i_step]. rewrite !fold_left_app. reflexivity. Qed.
 
   Theorem reload_same_idx : forall (ops1 ops2 : list (iop K)) (w : iwallet K),
     i_run K child (ops1 ++ ISaveReload :: ops2) w = i_run K child (ops1 ++ ops2) w.
